@@ -140,12 +140,21 @@ func (c *Client) Do(cmd Command) Outcome {
 			break
 		}
 		frames = append(frames, f)
+		if !c.Text && !needBarrier && cmd.NoopEnd && f.Kind == "status" && f.Opaque == barrierOpaque {
+			// an error reply attributed to the no-op that closes the batch ends the batch
+			sawBarrier = true
+			break
+		}
 	}
 	out.Frames = len(frames)
+	early := out.Class
 	if c.Text {
 		c.interpretText(cmd, frames, &out)
 	} else {
 		c.interpretBin(cmd, frames, &out)
+	}
+	if early == "timeout" || early == "malformed" {
+		out.Class = early
 	}
 	if !sawBarrier && out.Class != "timeout" && out.Class != "malformed" && cmd.Op != "quit" {
 		out.Class, out.Closed = "closed", true
@@ -168,6 +177,11 @@ func (c *Client) interpretBin(cmd Command, frames []Frame, out *Outcome) {
 		wantOp := binOps[cmd.Op][0]
 		for _, f := range frames {
 			idx := int(int64(f.Opaque) - int64(cmd.Opaque))
+			if cmd.NoopEnd && idx == len(cmd.Keys) && f.Kind == "status" && f.Opaque >= cmd.Opaque {
+				// the error ends the batch in place of the no-op reply
+				out.Class, out.Status = classOfStatus(f.Status), binStatusName[f.Status]
+				continue
+			}
 			if idx < 0 || idx >= len(cmd.Keys) || f.Opaque < cmd.Opaque {
 				anom("frame with opaque %#x cannot be attributed (status %#x opcode %#x)", f.Opaque, f.Status, f.Opcode)
 				if f.Kind == "status" && classOfStatus(f.Status) == "error" {
